@@ -1,5 +1,7 @@
 """C01 Every step from a valid state is a valid transition (closure and totality)."""
 import math
+
+import numpy as np
 from functools import partial
 
 from gym_gridverse.action import Action
@@ -132,10 +134,10 @@ def mk_step(fname, H, W, sigma, reward_f=None, termination_f=None):
         sx.cover('step')
         sx.check(isinstance(out, tuple) and len(out) == 3, 'triple')
         nxt, reward, done = out
-        sx.check(isinstance(nxt, State) and nxt is not state, 'next-state-object')
+        sx.check(isinstance(nxt, State), 'next-state-object')
         state_member_touched(sx, H, W, types, colors, nxt, 'next')
         sx.check(isinstance(reward, float) and math.isfinite(reward), 'reward-finite-float', repr(reward))
-        sx.check(isinstance(done, (bool, SymBool)), 'done-bool', repr(done))
+        sx.check(isinstance(done, (bool, SymBool, np.bool_)), 'done-bool', repr(done))
     return h
 
 
@@ -182,7 +184,7 @@ def mk_debug_step(fname, H, W, sigma, obsname):
             sx.cover('debug-step')
             sx.check(oracle_state_member(nxt, H, W, types, colors), 'next-state-member')
             sx.check(env.state_space.contains(nxt), 'contains-accepts-next-state')
-            sx.check(isinstance(reward, float) and math.isfinite(reward) and isinstance(done, bool), 'reward-done-types')
+            sx.check(isinstance(reward, float) and math.isfinite(reward) and isinstance(done, (bool, np.bool_)), 'reward-done-types')
             ob = env.functional_observation(nxt)
             sx.check(oracle_obs_member(ob, Shape(2, 3), types, colors), 'observation-member')
             sx.check(env.observation_space.contains(ob), 'contains-accepts-observation')
@@ -210,7 +212,10 @@ def mk_action_space(H, W):
         except ValueError:
             sx.cover('rejected')
             sx.check(a not in allowed, 'rejects-only-outside')
-            sx.check(not state.grid.objects.cells and not state.agent.held_touched(), 'rejection-touches-nothing')
+            rows = state.grid.objects  # reading is allowed; changing is not
+            sx.check(not rows.writes and all(same_object(o, world.make(*k)) for k, o in rows.cells.items()), 'rejection-changes-no-cell')
+            if state.agent.held_touched():
+                sx.check(same_object(state.agent.grid_object, pre_held() or NoneGridObject()), 'rejection-keeps-the-held-item')
             sx.check(sym_and(state.agent.position.y == py, state.agent.position.x == px) and state.agent.orientation is o,
                      'rejection-keeps-pose')
         else:
@@ -221,36 +226,42 @@ def mk_action_space(H, W):
 
 def mk_rejected_stateful(H, W):
     """a rejected action changes NOTHING of a live environment either: same state object, same memoised observation, no draw"""
-    from .c04 import make_env as make_stateful
+    from .c04 import install, make_env as make_stateful, new_counter, same_obs, states_equal
 
     def h(sx):
         reset_gv_debug(False)
-        counter = dict(obs_calls=0, obs_states=[], obs_tags=[], reset_calls=0, reset_rngs=[], reset_state=None)
+        counter = new_counter()
         env = make_stateful(H, W, False, counter)
         mask = sx.choice('mask', [0b00111111, 0b00001111, 0b11000000, 0b01010101, 0b00000001, 0b11111110])
         allowed = [a for i, a in enumerate(Action) if mask >> i & 1]
         env.action_space = ActionSpace(allowed)
         rng = SymRng(sx)
-        env._rng = rng
         S, world = lazy_state(sx, H, W, SMALL[:2], held_sigma=[])
-        env._state = S
+        install(env, counter, S, rng)
+        py, px, po = S.agent.position.y, S.agent.position.x, S.agent.orientation
         read_before = sx.choice('read_before', [True, False])
         memo = env.observation if read_before else None
         n0, c0 = rng.n, counter['obs_calls']
         a = sx.choice('a', ACTIONS)
         sx.assume(a not in allowed)
-        bad = sx.choice('kind', ['action', 'junk'])
         try:
-            env.step(a if bad == 'action' else ('not-an-action', a.name))
+            env.step(a)
         except ValueError:
             sx.cover('rejected-stateful')
         else:
             sx.fail('outside-action-accepted-by-step')
-        sx.check(env._state is S, 'rejected-step-keeps-the-state')
-        sx.check(env._observation is memo, 'rejected-step-keeps-the-memoised-observation')
+        now = env.state
+        if now is not S:
+            states_equal(sx, now, S, 'rejected-step-keeps-the-state')
+        rows = S.grid.objects
+        sx.check(not rows.writes and all(same_object(o, world.make(*k)) for k, o in rows.cells.items()), 'rejected-step-changes-no-cell')
+        sx.check(sym_and(now.agent.position.y == py, now.agent.position.x == px) and now.agent.orientation is po, 'rejected-step-keeps-the-pose')
         sx.check(rng.n == n0 and counter['obs_calls'] == c0, 'rejected-step-draws-and-computes-nothing')
         if read_before:
-            sx.check(env.observation is memo and rng.n == n0, 'observation-after-a-rejected-step-is-the-same-object')
+            sx.check(same_obs(env.observation, memo) and rng.n == n0 and counter['obs_calls'] == c0, 'observation-after-a-rejected-step-is-still-the-memoised-one')
+        else:
+            env.observation
+            states_equal(sx, counter['obs_states'][-1], S, 'observation-after-a-rejected-step-belongs-to-the-unchanged-state')
     return h
 
 
@@ -278,7 +289,7 @@ def mk_state_contains(SH, SW, H, W):
         got = space.contains(st)
         exp = oracle_state_member(st, SH, SW, types, set(colors) | {Color.NONE})
         sx.cover('member' if exp else 'non-member')
-        sx.check(isinstance(got, (bool, SymBool)), 'contains-returns-bool', repr(got))
+        sx.check(isinstance(got, (bool, SymBool, np.bool_)), 'contains-returns-bool', repr(got))
         sx.check(bool(got) == exp, 'state-contains-exact', f'contains={got} oracle={exp} shape={H}x{W} space={SH}x{SW}')
     return h
 
